@@ -18,5 +18,7 @@ INVARIANT RestartHoldsWholeHistory
 INVARIANT MergedUnchanged
 INVARIANT RestartIsInit
 INVARIANT ProbesServeLive
+INVARIANT TouchedNodesAreWritten
+INVARIANT TouchingHappens
 INVARIANT RestartedStatesDiffer
 CHECK_DEADLOCK FALSE
